@@ -457,6 +457,7 @@ class InterpCore:
             if n in ("functools.cache", "functools.lru_cache"):
                 if isinstance(v, FuncV):
                     self.cached_functions.add(v.uid)
+                    self.cached_funcs[v.uid] = v
                 return v
             if n in ("typing.final", "typing.runtime_checkable", "typing.overload", "abc.abstractmethod",
                      "typing.no_type_check"):
